@@ -187,4 +187,121 @@ theorem prodW_of_unitEq (tbl : Table α) (h : PosTbl tbl) (u v : Unit) (he : uni
   have : canon tbl u = canon tbl v := by simpa using he
   rw [← prodW_canon tbl h u, this, prodW_canon tbl h v]
 
+
+/-! ### physical value, comparisons -/
+
+/-- magnitude in base units -/
+def phys (tbl : Table α) (q : Quantity α) : α := q.value * prodW tbl q.unit
+
+theorem convert_phys' (tbl : Table α) (hp : PosTbl tbl) (q q' : Quantity α) (U : Unit)
+    (h : convertTo tbl q U = .ok q') : q'.value * prodW tbl U = phys tbl q := by
+  unfold phys
+  unfold convertTo at h
+  split at h
+  · rename_i hc
+    cases h
+    simp only
+    rcases Bool.or_eq_true _ _ ▸ hc with he | hz
+    · rw [prodW_of_unitEq tbl hp _ _ he]
+    · have : q.value = 0 := by
+        unfold Quantity.isZero at hz
+        rw [beq_iff] at hz
+        rw [hz, zero_eq]
+      rw [this]; grind
+  · simp only at h
+    split at h
+    · cases h
+      simp only
+      rw [factorOf_eq, factorOf_eq, prodW_canon tbl hp]
+      simp only [Unit.div, prodW_append, div_eq, mul_eq, one_eq]
+      have hinv := prodW_invert tbl hp
+        (commonFactors (canon tbl q.unit) (canon tbl U))
+      have hU := pos_ne_zero _ (pos_prodW tbl hp U)
+      have hI := pos_ne_zero _ (pos_prodW tbl hp (Unit.invert (commonFactors (canon tbl q.unit) (canon tbl U))))
+      grind
+    · cases h
+
+theorem convert_unit' (tbl : Table α) (q q' : Quantity α) (U : Unit)
+    (h : convertTo tbl q U = .ok q') : q'.unit = U := by
+  unfold convertTo at h
+  split at h
+  · cases h; rfl
+  · simp only at h
+    split at h
+    · cases h; rfl
+    · cases h
+
+theorem isZero_iff (q : Quantity α) : q.isZero = true ↔ q.value = 0 := by
+  unfold Quantity.isZero
+  rw [beq_iff, zero_eq]
+
+theorem lt_scale (a b c : α) (hc : Pos c) : lt a b = lt (a * c) (b * c) := (lt_mul_pos a b c hc).symm
+
+theorem cmpValues_scale (a b c : α) (hc : Pos c) : cmpValues a b = cmpValues (a * c) (b * c) := by
+  unfold cmpValues
+  rw [lt_scale a b c hc, lt_scale b a c hc]
+
+/-- comparison of two quantities is comparison of their physical values, whenever both operands can be
+expressed in the other's unit (same dimension) and neither is NaN -/
+theorem qcmp_phys (tbl : Table α) (hp : PosTbl tbl) (a b b' : Quantity α)
+    (hb : convertTo tbl b a.unit = .ok b') :
+    qcmp tbl a b = cmpValues (phys tbl a) (phys tbl b) := by
+  unfold qcmp
+  simp only [isNaN_false, Bool.or_self, Bool.false_eq_true, if_false]
+  split
+  · rename_i hz
+    have hz0 := (isZero_iff a).mp hz
+    have hc : convertTo tbl a b.unit = .ok ⟨a.value, b.unit, true⟩ := by
+      unfold convertTo; simp [hz]
+    rw [hc]
+    simp only
+    rw [cmpValues_scale a.value b.value (prodW tbl b.unit) (pos_prodW tbl hp _)]
+    unfold phys
+    rw [hz0]
+    have : (0 : α) * prodW tbl b.unit = 0 * prodW tbl a.unit := by grind
+    rw [this]
+  · rw [hb]
+    simp only
+    rw [cmpValues_scale a.value b'.value (prodW tbl a.unit) (pos_prodW tbl hp _)]
+    rw [convert_phys' tbl hp b b' a.unit hb]
+    rfl
+
+theorem qeq_phys (tbl : Table α) (hp : PosTbl tbl) (a b b' : Quantity α)
+    (hb : convertTo tbl b a.unit = .ok b') :
+    qeq tbl a b = beq (phys tbl a) (phys tbl b) := by
+  unfold qeq
+  rw [hb]
+  simp only
+  have h := convert_phys' tbl hp b b' a.unit hb
+  have hpa := pos_ne_zero _ (pos_prodW tbl hp a.unit)
+  unfold phys at *
+  cases h1 : beq a.value b'.value <;> cases h2 : beq (a.value * prodW tbl a.unit) (b.value * prodW tbl b.unit) <;> try rfl
+  · rw [beq_iff] at h2
+    have : a.value = b'.value := by grind
+    rw [← beq_iff] at this
+    rw [this] at h1; cases h1
+  · rw [beq_iff] at h1
+    have : a.value * prodW tbl a.unit = b.value * prodW tbl b.unit := by grind
+    rw [← beq_iff] at this
+    rw [this] at h2; cases h2
+
+theorem cmpValues_swap (x y : α) :
+    cmpValues y x = match cmpValues x y with
+      | .lt => .gt | .gt => .lt | o => o := by
+  unfold cmpValues
+  cases h1 : lt x y <;> cases h2 : lt y x <;> simp
+  · have := lt_asymm x y h1; rw [this] at h2; cases h2
+
+theorem cmpValues_eq_iff (x y : α) : cmpValues x y = .eq ↔ x = y := by
+  unfold cmpValues
+  constructor
+  · intro h
+    cases h1 : lt x y <;> cases h2 : lt y x <;> simp [h1, h2] at h
+    exact lt_total x y h1 h2
+  · intro h; subst h; simp [lt_irrefl]
+
+theorem cmpValues_cases (x y : α) : cmpValues x y = .lt ∨ cmpValues x y = .eq ∨ cmpValues x y = .gt := by
+  unfold cmpValues
+  cases lt x y <;> cases lt y x <;> simp
+
 end NumbatModel.Qty
